@@ -11,6 +11,7 @@ import (
 	"github.com/MixinNetwork/mixin/common"
 	"github.com/MixinNetwork/mixin/config"
 	"github.com/MixinNetwork/mixin/crypto"
+	"github.com/MixinNetwork/mixin/p2p"
 	"github.com/MixinNetwork/mixin/verifgen"
 	"github.com/MixinNetwork/mixin/verifkit"
 )
@@ -278,14 +279,36 @@ func TestVerif_C24(t *testing.T) {
 					_ = chain.AppendCosiAction(&CosiAction{PeerId: self, Action: CosiActionSelfEmpty, Snapshot: s})
 				})
 			case "announcement-error":
-				// sync points are empty on this replica: "chain not broadcasted to peers yet" => requeue class
 				rc := f.node.chain
+				if rng.Intn(2) == 0 {
+					// sync points are empty on this replica: "chain not broadcasted to peers yet" => requeue class
+					f.node.SyncPointsMap = nil
+				} else {
+					// the replica is in step with its peers, but one member of the batch was finalized by another
+					// chain between the queue pop and the announcement => requeue class (the companions stay eligible)
+					spm := map[crypto.Hash]*p2p.SyncPoint{}
+					for _, id := range f.net.NodeIds {
+						if id != self {
+							spm[id] = &p2p.SyncPoint{NodeId: id, Number: 0}
+						}
+					}
+					f.node.SyncPointsMap = spm
+					v := newTx("finalized")
+					if v.state == "finalized" {
+						mix[v.state] = true
+						extra = append(extra, v)
+						pos := rng.Intn(len(s.Transactions) + 1)
+						s.Transactions = slices.Insert(s.Transactions, pos, v.hash)
+						kind = "announcement-error-finalized-member"
+					}
+				}
 				panicked, panicVal, _ = verifkit.Guard(func() {
 					_, err := rc.cosiHook(&CosiAction{PeerId: self, Action: CosiActionSelfEmpty, Snapshot: s})
 					if err != nil {
 						panic("announcement error returned instead of requeue: " + err.Error())
 					}
 				})
+				f.node.SyncPointsMap = nil
 			}
 		}
 		r.Eval()
